@@ -30,7 +30,7 @@ func init() {
 		},
 		Real:       []string{"lazy package", "fp.Memoize", "fp.MakeList / ListAdaptor", "list.Generate/Recurrence/Map/Zip/Scan/Collect", "iterator.ToList", "seq/iterator/list.FoldRight"},
 		Stub:       []string{"Go scheduler between tasks (seeded; yield points inside harness thunks, blocking on sync.Once detected from the runtime)", "thunks (instrumented, may stall or panic)", "stack limit"},
-		Quick:      Budget{Runs: 60000, Wall: 45 * time.Second},
+		Quick:      Budget{Runs: 150000, Wall: 45 * time.Second},
 		Thorough:   Budget{Runs: 4000000, Wall: 25 * time.Minute},
 		MaxStackMB: 8,
 		Exec:       execC16,
@@ -621,7 +621,7 @@ func (c *c16) listCells() {
 	}
 	nTasks := r.Range(2, 4, "nTasks")
 	for i := 0; i < nTasks; i++ {
-		mode := r.Choose(3, "travMode")
+		mode := r.Choose(5, "travMode")
 		r.Go(fmt.Sprintf("walker%d", i), func(t *sim.Task) {
 			defer func() {
 				if p := recover(); p != nil {
@@ -645,7 +645,7 @@ func (c *c16) listCells() {
 					got = append(got, h)
 					cur = tl
 				}
-			default:
+			case 2:
 				cur := l
 				for !cur.IsEmpty() {
 					got = append(got, cur.Head())
@@ -653,6 +653,40 @@ func (c *c16) listCells() {
 					got[len(got)-1] = cur.Head() // repeated Head must not re-run anything
 					cur = cur.Tail()
 					r.Gate("ret")
+				}
+			case 3:
+				// drop-style access: walk the spine with Tail only (the caller knows the length), then read the
+				// heads of the retained cells - the tail thunk of a cell runs while nobody has asked for its head
+				cells := make([]fp.List[int], 0, len(want))
+				cur := l
+				for range want {
+					cells = append(cells, cur)
+					t.Yield("cell")
+					cur = cur.Tail()
+					r.Gate("ret")
+				}
+				if !cur.IsEmpty() {
+					r.Gate("ret")
+					r.Violate("wrong-value", "%s: the list is longer than the %d elements strict evaluation gives", names[kind], len(want))
+					return
+				}
+				r.Gate("ret")
+				for _, cl := range cells {
+					t.Yield("cell")
+					got = append(got, cl.Head())
+					r.Gate("ret")
+				}
+			default:
+				// per cell: Tail before Head
+				cur := l
+				for range want {
+					t.Yield("cell")
+					nx := cur.Tail()
+					r.Gate("ret")
+					t.Yield("cell")
+					got = append(got, cur.Head())
+					r.Gate("ret")
+					cur = nx
 				}
 			}
 			r.Gate("ret")
